@@ -115,3 +115,6 @@ PROPS["C20"] = {
 PROPS["C16"]["go_tests"] = ["TestVerifStore", "TestVerifCountersConcurrent"]
 PROPS["C16"]["impl_only_traces"] = ["counters"]
 PROPS["C16"]["rule"] = STORE_RULE + "; plus a concurrent run: groups of 8 goroutines released together on the same absent key of a loading cache (leaders and joiners), mixed with plain Gets, then quiescent comparison of Stats/Len/EstimatedSize with the harness's own tally"
+
+PROPS["C08"]["go_tests"] = ["TestVerifRing", "TestVerifRingStore"]
+PROPS["C08"]["rule"] += "; plus the same stepping through real Store.Get calls on one stripe, with schedules that park 12..17 readers between their tail CAS and the publication of their slot before another reader takes over the drain"
